@@ -29,5 +29,6 @@ def run(e, R, tier):
         L.r_wake,
         L.r_own_resolve,
         L.r_drop_resolves,
+        L.r_cancel_safe,
     ])
     R.trust("multiprocessing.connection.wait returns the ready subset; Process.sentinel becomes ready when the process ends")
